@@ -3,6 +3,7 @@ CONSTANTS
   MaxTotal = 5
   MaxFirst = 6
   Budgets <- MCBudgets
+  Begins = {0, 1, 2, 4, 7}
   Emit = TRUE
 INVARIANTS AlgoIsSpec Vector
 CHECK_DEADLOCK FALSE
